@@ -392,6 +392,21 @@ def check_stoichiometry(ctx, f):
             miss.append('loop creating the %s references' % lst)
             continue
         lp = loops[0]
+        # species list and multiplicities stay aligned: once the multiplicities have been counted, neither list is reordered, changed or
+        # re-bound before (or while) the references are written
+        cdef_ = [s_ for s_ in f.body if isinstance(s_, ast.Assign) and src(s_.targets[0]) == coefs]
+        if len(cdef_) == 1 and f.body.index(cdef_[0]) < f.body.index(lp):
+            for s_ in f.body[f.body.index(cdef_[0]) + 1:f.body.index(lp) + 1]:
+                for n_ in ast.walk(s_):
+                    if isinstance(n_, ast.Call) and isinstance(n_.func, ast.Attribute) and isinstance(n_.func.value, ast.Name) and n_.func.value.id in (lst, coefs) \
+                            and n_.func.attr in ('sort', 'reverse', 'append', 'pop', 'remove', 'insert', 'extend', 'clear'):
+                        miss.append('%s is changed by `%s` after the multiplicities were counted: species and multiplicities no longer correspond'
+                                    % (n_.func.value.id, src(n_)))
+                    if isinstance(n_, (ast.Assign, ast.AugAssign, ast.Delete)):
+                        for t_ in (n_.targets if isinstance(n_, (ast.Assign, ast.Delete)) else [n_.target]):
+                            b_ = t_.value if isinstance(t_, ast.Subscript) else t_
+                            if isinstance(b_, ast.Name) and b_.id in (lst, coefs):
+                                miss.append('%s is re-bound or written by `%s` after the multiplicities were counted' % (b_.id, util.stmt_key(n_)[:60]))
         it = src(lp.iter).replace(' ', '')
         if it == 'range(len(%s))' % lst and isinstance(lp.target, ast.Name):
             elem, coef = '%s[%s]' % (lst, lp.target.id), '%s[%s]' % (coefs, lp.target.id)
